@@ -47,17 +47,19 @@ Theorem C16_simple_v : forall f o r text, plain_text o text -> no_alternates f o
 Proof. exact simple_v. Qed.
 Print Assumptions C16_simple_v.
 
-(* the vertical advance is the vmtx advance, or ascender - descender (the code computes the
-   difference in i16: equal to the mathematical difference when that fits) *)
+(* the vertical advance is the vmtx advance, or ascender - descender (no range condition: the code
+   subtracts in i32 since the fix 836488e; the i16 subtraction it replaced wrapped beyond 32767) *)
 Theorem C16_vadv_vmtx : forall f vm g, f_vmetrics f = Some vm ->
   v_advance f g = (- Z.of_N (nth (N.to_nat g) (vm_vadv vm) 0%N))%Z.
 Proof. exact v_advance_vmtx. Qed.
 Print Assumptions C16_vadv_vmtx.
 
-Theorem C16_vadv_fallback : forall f g, f_vmetrics f = None ->
-  (-32768 <= f_ascender f - f_descender f < 32768)%Z -> v_advance f g = (- (f_ascender f - f_descender f))%Z.
+Theorem C16_vadv_fallback : forall f g, f_vmetrics f = None -> v_advance f g = (- (f_ascender f - f_descender f))%Z.
 Proof. exact v_advance_fallback. Qed.
 Print Assumptions C16_vadv_fallback.
+
+Example C16_vadv_tall : v_advance tall_font 1 = (-40000)%Z.
+Proof. exact v_advance_tall. Qed.
 
 (* when is there no usable alternate: never for left-to-right; when the Unicode tables have none;
    when the font maps none of them *)
